@@ -282,6 +282,17 @@ func runC11(c *rt.Ctx) {
 		}
 		c11Decode(w, nil)
 	})
+	c.Parallel("foreign-encodings", 0, func(w *rt.W) {
+		lo, hi := ref.Ordinal(0, 1, 1), ref.Ordinal(9999, 12, 31)
+		for k := 0; k < 40000/w.NShards; k++ {
+			y, m, d := ref.Civil(lo + int64(w.Rng.U64()%uint64(hi-lo+1)))
+			for _, t := range []string{ref.DateText(y, m, d, false), ref.DateText(y, m, d, true), `"` + ref.DateText(y, m, d, false) + `"`, ref.DateText(y, m, d, true)[:7], "\x01" + ref.DateText(y, m, d, true)[:6], "\x01" + ref.DateText(y, m, d, false), ref.DateText(y, m, d, false) + "\x00"} {
+				c11Decode(w, []byte(t))
+			}
+			w.ClassN("text-form-given-to-binary-decoder", 1)
+		}
+	})
+	c.Require("text-form-given-to-binary-decoder", 30000)
 	c.Exhaustive("all 256 version bytes x lengths {1,6,7,8}; all lengths 0..16")
 
 	nRand := c.Pick(1000000, 50000000)
